@@ -956,9 +956,12 @@ def process_template(unit, tpl_path=None, canary=False):
             if i < len(lines) and lines[i].strip() == '//@keeptrait':
                 keep_trait = True
                 header = ' '.join(strip_attrs_and_docs(src[imp.s:imp.body_s], ctx).split())
-                assoc_types = {}
+                keep_assoc = dict(assoc_types)
                 i += 1
             out.append(header + ' {')
+            if keep_trait:
+                for k, v in assoc_types.items():
+                    out.append('    type %s = %s;' % (k, v))
             while i < len(lines):
                 s2 = lines[i].strip()
                 if s2 == '//@endimpl':
